@@ -131,7 +131,7 @@ def project_assembled(result: Assembler.Result, module: gtirb.Module) -> dict:
         un["tg"] = ""
         for x in sx:
             if un["o"] <= x["o"] < un["o"] + un["n"]:
-                un["tg"] = x["d"].split("|")[1]
+                un["tg"] = x["d"][1]
                 break
         un["tgb"] = base_name(un["tg"])
         un["by"] = list(data[un["o"] : un["o"] + un["n"]])
@@ -226,6 +226,11 @@ def run_sequential(case: dict) -> dict:
             ctx.apply()
             # functions may have lost/gained blocks: rebuild the Function objects
             r.functions = _rebuild_functions(r.module)
+        if case.get("retarget"):
+            old, new = case["retarget"]
+            ctx = RewritingContext(r.module, r.functions)
+            ctx.retarget_symbol_uses(r.symbols[old], r.symbols[new])
+            ctx.apply()
     except BaseException as e:
         exc = exc_name(e)
         if os.environ.get("VERIF_DEBUG"):
@@ -295,6 +300,9 @@ def run_case(case: dict, sink=None, sequential: bool = False) -> dict:
             else:
                 ctx.delete_at(b, rq["off"], rq["len"], retarget_to_proxy=rec["proxy"])
             trace_reqs.append(rec)
+        if case.get("retarget"):
+            old, new = case["retarget"]
+            ctx.retarget_symbol_uses(r.symbols[old], r.symbols[new])
         if case.get("insfn", "none") not in ("none", ""):
             fnspec = {"kind": case["insfn"], "k": 77, "tgt": "b1"}
             insfn_rec = {"name": "newfn", "patch": assemble_standalone(shape, fnspec)}
@@ -336,7 +344,8 @@ def run_case(case: dict, sink=None, sequential: bool = False) -> dict:
     return {**extra, "id": case["id"], "pre": pre, "reqs": trace_reqs, "post": post,
             "exc": exc, "stage": stage, "nfun": len(r.functions),
             "isa": isa, "fmt": shape.get("fmt", "elf"), "whole": whole,
-            "fault": int(case.get("fault", 0)), "ninv": len(ctxlog), "insfn": insfn_rec}
+            "fault": int(case.get("fault", 0)), "ninv": len(ctxlog), "insfn": insfn_rec,
+            "retarget": list(case.get("retarget") or [])}
 
 
 def run_det(case: dict) -> dict:
